@@ -229,6 +229,33 @@ def main(argv):
             ck.case(("lua-edit", kind), sample=dict(family="lua-edit", physics=kind) if kind == "e" else None)
             stats["families"]["lua-edit"] = stats["families"].get("lua-edit", 0) + 1
             run_san("lua-edit:%s" % kind, [tool(san, "femmcli"), "--lua-script=s.lua"], d, files_of(d))
+            # the same editing session under valgrind on the plain build (uninitialised members of freshly drawn entities are invisible to
+            # ASan), and the drawing it saves must not depend on the build / on stale memory
+            dv2 = os.path.join(work, "f4v_%s" % kind)
+            os.makedirs(dv2)
+            shutil.copy(os.path.join(d, "s.lua"), dv2)
+            stats["valgrind_runs"] += 1
+            try:
+                rv = subprocess.run(["valgrind", "--error-exitcode=0", "-q", tool(plain, "femmcli"), "--lua-script=s.lua"], cwd=dv2, stdout=subprocess.PIPE,
+                                    stderr=subprocess.PIPE, text=True, timeout=1500, errors="replace")
+                m = VG_BAD.search(rv.stderr)
+                if m or rv.returncode < 0:
+                    fr = re.findall(r"(?:at|by) 0x[0-9A-F]+: (\S+) \(([^)]*)\)", rv.stderr)
+                    own = [x for x in fr if ".cpp:" in x[1] and "triangle" not in x[1]]
+                    ck.violation("valgrind:%s" % (own[0][1].split(":")[0] if own else "crash"),
+                                 "valgrind memcheck: %s in a Lua editing session (%s): %s" % (m.group(0) if m else "abnormal termination", kind,
+                                                                                             rv.stderr[m.start() if m else 0:(m.start() if m else 0) + 500].replace("\n", " | ")),
+                                 dict(scenario="lua-edit-valgrind", files=files_of(dv2)(), tail=rv.stderr[-3000:]))
+                fa, fb = os.path.join(d, "edited" + femmio.EXT[kind]), os.path.join(dv2, "edited" + femmio.EXT[kind])
+                if os.path.exists(fa) and os.path.exists(fb):
+                    stats["determinism_pairs"] += 1
+                    if open(fa, "rb").read() != open(fb, "rb").read():
+                        la, lb = open(fa, errors="replace").read().splitlines(), open(fb, errors="replace").read().splitlines()
+                        k0 = next((i for i in range(min(len(la), len(lb))) if la[i] != lb[i]), min(len(la), len(lb)))
+                        ck.violation("nondeterministic-edit:%s" % kind, "the same Lua editing session saves different drawings on two builds: line %d: %r vs %r"
+                                     % (k0 + 1, la[k0] if k0 < len(la) else None, lb[k0] if k0 < len(lb) else None), dict(scenario="lua-edit", files=files_of(d)()))
+            except subprocess.TimeoutExpired:
+                pass
         # ---- family 5: transient heat step
         d = os.path.join(work, "f5")
         os.makedirs(d)
